@@ -371,6 +371,11 @@ class History:
         rc, out, err = self.ctx.imdl(argv, cwd=os.fsdecode(self.cwd), timeout=120)
         text = re.sub(r"\x1b\[[0-9;]*m", "", err.decode("utf-8", "replace"))
         named = [comps for comps, _ in cr["listed"] if (is_named(os.fsdecode(b"/".join(comps)), text) if comps else os.fsdecode(self.name) in text)]
+        # a listed file whose whole path is the content root's own name (a file `my content` inside the directory `my content`)
+        # cannot be told from the step banner, which shows the root: it counts as named exactly when it has to be named
+        # (false alarm of the vp check with seed 1 after the edit `todir_holding` was added: the banner was read as a file's name)
+        amb = {os.path.basename(os.path.normpath(os.fsdecode(x))) for x in (self.name, self.tname)}
+        named = [c for c in named if not (len(c) == 1 and os.fsdecode(c[0]) in amb and c not in must_name)]
         rec = {"op": "verify", "argv": ["imdl"] + argv, "cwd": self.cwd, "exit_status": rc, "stderr_tail": text[-400:],
                "oracle_expects": "exit 0" if expect_ok else "exit 1", "listed_state": state,
                "named": [b"/".join(c) for c in named], "multi": cr["multi"]}
